@@ -170,6 +170,7 @@ type Exec struct {
 	closureOrder   []string
 	shiftAxiom     map[string]bool
 	tagTypes       map[int]types.Type
+	ifaceAsserts []ifaceAssert // executed interface-to-interface assertions (facts are completed when a new dynamic type becomes known)
 	fvCells        map[string]TV // captured variables of the closure under proof: cell reference and element type
 	callOrd        map[*ssa.Call]int
 	callName       map[*ssa.Call]string
@@ -996,6 +997,9 @@ func VerifyFunction(ld *Loader, db *ContractDB, fn *ssa.Function, con *Contract)
 		con.Ensures = append(con.Ensures, Clause{Tags: con.Tags, Expr: e, Src: src, File: con.File, Line: con.Line, Label: "fresh_" + fr})
 	}
 	con.Fresh = append([]string{}, con.Fresh...)
+	// dynamic types named by hastype(...) in this contract or in the predicates of its package are known
+	// from the start, so that interface-to-interface assertions are decided for them
+	x.registerSpecTags(con)
 	// preconditions
 	env := x.newEnv(x.paramVars(), x.entry, x.entry)
 	for _, r := range con.Requires {
@@ -1245,7 +1249,7 @@ func (x *Exec) resolveModItem(m *Expr, env *Env, ms *modSet) {
 			a := m.Args[0]
 			if a.Kind == EStr {
 				// every("map[K]V"): the whole heap of maps of that type
-				t := x.parseSpecType(a.Name, env.fnPos)
+				t := x.parseSpecTypeIn(a.Name, env.specPkg)
 				if mt, ok := t.ty.Underlying().(*types.Map); ok {
 					ms.whole[x.mapHeapName(mt)] = true
 					return
@@ -1259,7 +1263,7 @@ func (x *Exec) resolveModItem(m *Expr, env *Env, ms *modSet) {
 				tname = a.Args[0].Args[0].Name + "." + a.Args[0].Name // pkg.Type.field
 			}
 			if tname != "" {
-				t := x.parseSpecType(tname, env.fnPos)
+				t := x.parseSpecTypeIn(tname, env.specPkg)
 				n, s := namedStruct(t.ty)
 				if s == nil {
 					sfail("modifies every(%s): not a struct type", a)
@@ -2121,7 +2125,41 @@ func (x *Exec) modItemHeaps(callee *ssa.Function, m *Expr, mi *modInfo) {
 				mi.heaps[x.cellHeapName(p.Elem())] = ArraySort(SInt, x.tm.SortOf(p.Elem()))
 			}
 		case "every":
-			x.fail("modifies every(...) inside a loop is not supported yet")
+			// the whole heap is written: type names resolve in the callee's package
+			pkgPath := ""
+			if callee.Pkg != nil {
+				pkgPath = callee.Pkg.Pkg.Path()
+			} else if callee.Object() != nil && callee.Object().Pkg() != nil {
+				pkgPath = callee.Object().Pkg().Path()
+			}
+			a := m.Args[0]
+			if a.Kind == EStr {
+				if mt, ok := x.parseSpecTypeIn(a.Name, pkgPath).ty.Underlying().(*types.Map); ok {
+					mi.heaps[x.mapHeapName(mt)] = ArraySort(SInt, x.mapSort(mt))
+					return
+				}
+				x.fail("modifies every(%q): not a map type", a.Name)
+			}
+			tname := ""
+			if a.Kind == EField && a.Args[0].Kind == EIdent {
+				tname = a.Args[0].Name
+			} else if a.Kind == EField && a.Args[0].Kind == EField && a.Args[0].Args[0].Kind == EIdent {
+				tname = a.Args[0].Args[0].Name + "." + a.Args[0].Name
+			}
+			if tname == "" {
+				x.fail("modifies every(...) expects Type.field")
+			}
+			n, st := namedStruct(x.parseSpecTypeIn(tname, pkgPath).ty)
+			if st == nil {
+				x.fail("modifies every(%s): not a struct type", a)
+			}
+			for q := 0; q < st.NumFields(); q++ {
+				if st.Field(q).Name() == a.Name {
+					mi.heaps[x.fieldHeapName(n, st.Field(q))] = ArraySort(SInt, x.tm.SortOf(st.Field(q).Type()))
+					return
+				}
+			}
+			x.fail("modifies every(%s): no such field", a)
 		}
 	}
 }
@@ -2143,4 +2181,42 @@ func (x *Exec) inlinable(fn *ssa.Function) bool {
 		}
 	}
 	return n <= 120
+}
+
+// registerSpecTags gives a tag to every type named in a hastype(x, "T") of the contract's clauses and of
+// the spec functions of the package under proof (names that do not resolve there are skipped).
+func (x *Exec) registerSpecTags(con *Contract) {
+	pkgPath := x.pkg.Pkg.Path()
+	var walk func(e *Expr, pkg string)
+	walk = func(e *Expr, pkg string) {
+		if e == nil {
+			return
+		}
+		if e.Kind == ECall && e.Name == "hastype" && len(e.Args) == 2 && e.Args[1].Kind == EStr {
+			func() {
+				defer func() { _ = recover() }()
+				if t := x.parseSpecTypeIn(e.Args[1].Name, pkg); t.ty != nil {
+					x.typeTag(t.ty)
+				}
+			}()
+		}
+		for _, a := range e.Args {
+			walk(a, pkg)
+		}
+	}
+	for _, cl := range [][]Clause{con.Requires, con.Ensures} {
+		for _, c := range cl {
+			walk(c.Expr, "")
+		}
+	}
+	var names []string
+	for n, sf := range x.db.Specs {
+		if sf.PkgPath == pkgPath && sf.Body != nil {
+			names = append(names, n)
+		}
+	}
+	sort.Strings(names)
+	for _, n := range names {
+		walk(x.db.Specs[n].Body, pkgPath)
+	}
 }
